@@ -25,7 +25,8 @@ func Family(quick bool) []*wm.World {
 	w1s := w1
 	w1s.Kind = "StatefulSet"
 	ic := wm.Workload{Kind: "Deployment", NS: "ns1", Name: "ingress-controller", Labels: map[string]string{"app": "b"}, Replicas: 1}
-	topos := [][]wm.Workload{{w1, w2}, {w1, w3}, {w1, w2, w3}, {w1s, w2}, {w1, ic}}
+	w1ns2 := wm.Workload{Kind: "Deployment", NS: "ns2", Name: "w1", Labels: map[string]string{"app": "a"}, Replicas: 1} // the same name in another namespace
+	topos := [][]wm.Workload{{w1, w2}, {w1, w3}, {w1, w2, w3}, {w1s, w2}, {w1, ic}, {w1, w1ns2}}
 	peersets := [][]wm.NPPeer{nil,
 		{{CIDR: "10.0.0.0/8"}},
 		{{CIDR: "10.0.0.0/9"}, {CIDR: "10.128.0.0/9"}},
